@@ -45,7 +45,7 @@ claimed = {
    ref="4/C09"),
  "C14": dict(
    text="Proof that the VM encoder NewLine and the VM decoders are exact inverses for the opcode and the (up to two) symbol arguments: contracts give NewLine's output layout and each decoder's exact result, and lemma functions (real Go under the tag) that encode with the real NewLine and decode with the real opSplit/parseSym/parseTwoSym are verified for every opcode, every symbol of 1..255 bytes and every program prefix.",
-   note="Reduced: integer/size/signal encoding by NewLine's byteargs and the asm writers (bytes.Buffer based) are not yet under contract; disassembler text not covered. Trusted: vcgo translation, BigEndian stub, string theory axioms (extensionality instances), solvers.",
+   note="The assembler's string and integer writers agree with the VM's decoders: lemma functions (real Go under the tag) write with the real asm.writeSym/writeSize and decode with the real vm.ParseLoad/ParseInCmp/ParseCatch, verified for every symbol of 1..255 bytes and every 32-bit size/signal value. numSize (floating point) is assumed here and checked for all 2^32-1 arguments by C16's thorough bounded run. Not covered: the text the disassembler prints (ToString formatting); NewLine's byteargs/numargs are appended as given (callers encode). Trusted: vcgo translation, BigEndian and bytes.Buffer stubs, string theory axioms (extensionality instances), solvers.",
    ref="4/C14"),
  "C15": dict(
    text="Proof, for every byte string, that the VM's instruction decoders (opSplit, instructionSplit, intSplit, parseSym/TwoSym/SymLen/SymSig/Sig) never panic (automatic bounds/nil obligations) and return nil error only when a complete, valid argument group was consumed (postconditions over the real code's SSA); and that the disassembler loop ParseAll consumes exactly one complete valid instruction per iteration, refuses undefined opcodes and passes every decoder error on.",
